@@ -11,8 +11,10 @@
                            registers the targets itself, the finders return [St2] (nothing pending).
                            A finder fails exactly when a component is repeated / present / missing or
                            a relation component among [add] is left without target; in the last case
-                           the archetype may already exist WITHOUT table: the failing state satisfies
-                           [St2] and keeps every active table literally ([r2a_keeps]);
+                           the (relation) archetype may already exist without table: the failing state
+                           satisfies [St2] and keeps every active table literally ([r2a_keeps]); an
+                           archetype WITHOUT relation components is created with its table
+                           (createArchetype as repaired), so none is ever left without table;
     - A_new_entity_spec -> [r2a_new_entity_spec]; A_add_spec -> [r2a_add_spec];
       A_remove_spec -> [r2a_remove_spec]; A_exchange_spec -> [r2a_exchange_spec]. Each [Err] branch
       also states WHY the call failed, which gives the "valid calls never fail" corollaries
@@ -41,11 +43,15 @@ From Coq Require Import Lia Permutation.
 (* ================================================================================================ *)
 (** * Part 1: find_or_create_arch in relation worlds (A_find_arch) *)
 
-(** What archetype creation does to a world: a fresh archetype without tables may be appended;
-    tables, index, pool, flags, cache are untouched. *)
+(** What archetype creation does to a world: a fresh archetype may be appended, together with its
+    table if it has no relation components (createArchetype as repaired; before the repair the table
+    was left to the following createTable, and a call rejected in between left the archetype without
+    table). Existing tables and archetypes are kept literally; index, pool and the values of the
+    target flags are untouched; the cache lists may be extended by the new table. *)
 Definition r2a_arch_ext (s s' : W) : Prop :=
   w_cfg s' = w_cfg s /\ w_reg s' = w_reg s /\ w_pool s' = w_pool s /\ w_index s' = w_index s /\
-  w_istarget s' = w_istarget s /\ w_tables s' = w_tables s /\ w_cheap s' = w_cheap s /\
+  (length (w_istarget s') = length (w_istarget s) /\ forall k, nth k (w_istarget s') false = nth k (w_istarget s) false) /\
+  (forall tid t, nth_error (w_tables s) tid = Some t -> nth_error (w_tables s') tid = Some t) /\
   w_centries s' = w_centries s /\ w_filters s' = w_filters s /\
   (forall i a, nth_error (w_archs s) i = Some a -> nth_error (w_archs s') i = Some a).
 
@@ -189,6 +195,27 @@ Proof.
         split; [apply (Old tid t b Ht0 Hb)|exact R].
 Qed.
 
+(** The archetype record alone: appended without table, nothing else moves. *)
+Lemma r2a_create_archetype_bare : forall D P X s m, St2G D P X s -> (forall j, mk_get m j = true -> j < length (w_reg s)) ->
+  (forall j a, nth_error (w_archs s) j = Some a -> a_mask a <> m) ->
+  exists s1 a, create_archetype_bare m s = Ok (length (w_archs s)) s1 /\ St2G D P X s1 /\
+    w_archs s1 = w_archs s ++ [a] /\ a_mask a = m /\ a_tables a = [] /\ a_free a = [] /\ a_tgttabs a = [] /\
+    a_reltabs a = map (fun _ => []) (a_comps a) /\
+    w_cfg s1 = w_cfg s /\ w_reg s1 = w_reg s /\ w_pool s1 = w_pool s /\ w_index s1 = w_index s /\
+    w_istarget s1 = w_istarget s /\ w_tables s1 = w_tables s /\ w_cheap s1 = w_cheap s /\
+    w_centries s1 = w_centries s /\ w_filters s1 = w_filters s /\ side_same s s1 /\ frame_user s s1.
+Proof.
+  intros D P X s m HS Hm Hu.
+  unfold create_archetype_bare, bind, get, put, ret. eexists. eexists. split; [reflexivity|].
+  split.
+  { eapply r2a_append_arch_St2G with (s := s); try reflexivity; try exact HS; cbn; auto;
+      try (apply sa_fold_length; intros; apply updf_length). }
+  split; [reflexivity|]. split; [reflexivity|]. split; [reflexivity|]. split; [reflexivity|]. split; [reflexivity|].
+  split; [reflexivity|]. split; [reflexivity|]. split; [reflexivity|]. split; [reflexivity|]. split; [reflexivity|].
+  split; [reflexivity|]. split; [reflexivity|]. split; [reflexivity|]. split; [reflexivity|]. split; [reflexivity|].
+  split; [unfold side_same; cbn; repeat split|unfold frame_user; cbn; repeat split].
+Qed.
+
 (** [find_or_create_arch] never fails, keeps the invariant and everything an entity can observe. *)
 Lemma r2a_find_arch : forall D P X s m, St2G D P X s -> (forall j, mk_get m j = true -> j < length (w_reg s)) ->
   exists aid s', find_or_create_arch m s = Ok aid s' /\ St2G D P X s' /\ r2a_arch_ext s s' /\ side_same s s' /\
@@ -203,14 +230,42 @@ Proof.
     split; [apply sa_side_same_refl|]. split; [apply sa_frame_user_refl|].
     exists a. auto.
   - pose proof (sa_find_go_none _ _ _ F) as Hu.
-    unfold create_archetype, bind, get, put, ret. eexists. eexists. split; [reflexivity|].
-    split; [|split; [|split; [|split]]].
-    + eapply r2a_append_arch_St2G with (s := s); try reflexivity; try exact HS; cbn; auto;
-        try (apply sa_fold_length; intros; apply updf_length).
-    + unfold r2a_arch_ext. cbn. repeat split; auto. intros i a Ha. apply sa_nth_error_snoc_old. exact Ha.
-    + unfold side_same. cbn. repeat split.
-    + unfold frame_user. cbn. repeat split.
-    + eexists. split; [cbn; apply sa_nth_error_snoc_new|reflexivity].
+    destruct (r2a_create_archetype_bare D P X s m HS Hm Hu) as
+      (s1 & a & E1 & HS1 & EA & Ma & Hta & Hfa & Hga & Hra & C1 & C2 & C3 & C4 & C5 & C6 & C7 & C8 & C9 & D1 & F1).
+    set (aid := length (w_archs s)) in *.
+    assert (Ha : nth_error (w_archs s1) aid = Some a) by (rewrite EA; apply sa_nth_error_snoc_new).
+    assert (Hold : forall i b, nth_error (w_archs s) i = Some b -> nth_error (w_archs s1) i = Some b).
+    { intros i b Hb. rewrite EA. apply sa_nth_error_snoc_old. exact Hb. }
+    unfold create_archetype. rewrite (sa_bind_ok E1), (sa_bind_ok (sa_getA_eq _ _ _ Ha)).
+    destruct (Nat.eqb_spec (a_numrel a) 0) as [Hn|Hn].
+    + (* no relation components: the table is created with the archetype *)
+      pose proof HS as (HW & _). pose proof HS1 as (HW1 & _).
+      destruct (r2_create_table_spec D P X s1 aid a [] HS1 Ha) as
+        (tid & s2 & t' & E2 & HS2 & R2 & Ht' & Earch & _ & _ & _ & _ & Hoth & Haoth & Hcase & Hfl & I2 & P2 & D2 & F2).
+      { split; [constructor|]. split; [cbn; lia|]. split; [|intros r []].
+        intros c. split; [intros []|]. intros (j & _ & Hr). exfalso. exact (r2_norel_cols s1 aid a HW1 Ha Hn j Hr). }
+      { intros x tx tg Hx Ex _ _. rewrite C6 in Hx. destruct (wf_layout _ HW x tx Hx) as (b & Hb & _).
+        apply sa_nth_error_lt in Hb. fold aid in Hb. lia. }
+      { intros _. exact Hta. }
+      { intros x Hx. rewrite Hfa in Hx. destruct Hx. }
+      { intros x Hx. rewrite Hfa in Hx. destruct Hx. }
+      exists aid, s2. split.
+      { unfold bind. rewrite E2. reflexivity. }
+      assert (Htid : tid = length (w_tables s)).
+      { destruct Hcase as [[Et _]|(fr & Efr)]; [rewrite Et, C6; reflexivity|]. rewrite Hfa in Efr. destruct fr; discriminate. }
+      split; [exact HS2|]. split.
+      { unfold r2a_arch_ext. destruct R2. destruct Hfl as (L1 & _ & L3 & _).
+        split; [congruence|]. split; [congruence|]. split; [congruence|]. split; [congruence|].
+        split; [split; [congruence|intros k; rewrite <- C5; apply L3; intros []]|].
+        split.
+        { intros x tx Hx. rewrite Hoth; [rewrite C6; exact Hx|]. apply sa_nth_error_lt in Hx. lia. }
+        split; [congruence|]. split; [congruence|].
+        intros i b Hb. rewrite Haoth; [apply Hold; exact Hb|]. apply sa_nth_error_lt in Hb. fold aid in Hb. lia. }
+      split; [eapply sa_side_same_trans; eassumption|]. split; [eapply sa_frame_user_trans; eassumption|].
+      destruct (rl_archs _ _ R2 aid a Ha) as (a' & Ha' & Ma' & _). exists a'. split; [exact Ha'|congruence].
+    + exists aid, s1. split; [reflexivity|]. split; [exact HS1|]. split.
+      { unfold r2a_arch_ext. rewrite C1, C2, C3, C4, C5, C6, C8, C9. repeat split; auto. }
+      split; [exact D1|]. split; [exact F1|]. exists a. auto.
 Qed.
 
 (* ================================================================================================ *)
@@ -390,8 +445,8 @@ Qed.
 
 Lemma r2a_arch_ext_keeps : forall s s', r2a_arch_ext s s' -> side_same s s' -> frame_user s s' -> r2a_keeps s s'.
 Proof.
-  intros s s' (E1 & E2 & E3 & E4 & E5 & E6 & E7 & E8 & E9 & EA) HS HF.
-  split; [exact E4|]. split; [exact E3|]. split; [intros tid t Ht _; rewrite E6; exact Ht|]. split; [|split; assumption].
+  intros s s' (E1 & E2 & E3 & E4 & E5 & E6 & E8 & E9 & EA) HS HF.
+  split; [exact E4|]. split; [exact E3|]. split; [intros tid t Ht _; apply E6; exact Ht|]. split; [|split; assumption].
   intros aid a Ha. exists a. split; [apply EA; exact Ha|reflexivity].
 Qed.
 
@@ -2114,10 +2169,15 @@ Proof. vm_compute. reflexivity. Qed.
     [[0]; [1; 1;0]] creates entity (2,0) without components and entity (3,0) with component 0, so the
     table of archetype {0} exists. Then [new_entity [0] [(0, (2,0))]] and [w_add (2,0) [0] [(0, (2,0))]]
     SUCCEED: GetTable ignores relation arguments for an archetype without relation components; the
-    entity shows the zero target, the bogus target (2,0) is flagged as a relation target. In the world
-    of script [[0]], where the table must be created, the same call panics (ENotRelation): whether
-    the misuse is detected depends on the history. This is a misuse (not a valid call); the theorems
-    above therefore require [r2a_rels_ok]: only RELATION components are named. *)
+    entity shows the zero target, the bogus target (2,0) is flagged as a relation target.
+    REGRESSION NOTE (last component of the example): in the world of script [[0]], where archetype {0}
+    does not exist yet, the same call used to panic (ENotRelation, raised by createTable) AFTER the
+    archetype had been created, and left the archetype without table; a later Reset / query over that
+    archetype then panicked. That defect was repaired in /repo: createArchetype now creates the table
+    of an archetype without relation components itself, so the following GetTable finds it and the
+    call is accepted silently in this world too ([is_err ... = false]); the misuse no longer depends
+    on the history and no archetype without table is left behind. It remains a misuse (not a valid
+    call); the theorems above therefore require [r2a_rels_ok]: only RELATION components are named. *)
 Definition r2a_ex0 : W := Properties.Common.exec Rel2Check.r2_cfg [[0]; [1; 1;0]]%Z.
 
 Example r2a_plan_refuted_nonrelation :
@@ -2128,12 +2188,15 @@ Example r2a_plan_refuted_nonrelation :
    | Ok _ s' => (st2_b s', tgt s' (2, 0%N) 0) | Err _ _ => (false, None) end,
    is_rel_comp r2a_ex0 0, r2a_new_target [(0, (2, 0%N))] 0,
    is_err (new_entity [0] [(0, (2, 0%N))] (Properties.Common.exec Rel2Check.r2_cfg [[0]]%Z)))
-  = (true, (true, Some (4, 0%N), Some zero_ent, true), (true, Some zero_ent), false, (2, 0%N), true).
+  = (true, (true, Some (4, 0%N), Some zero_ent, true), (true, Some zero_ent), false, (2, 0%N), false).
 Proof. vm_compute. reflexivity. Qed.
 
 (** A call that leaves a relation component without target fails after the archetype was created:
-    the failing state has an archetype without table and still satisfies [St2] (script [[0]], then
-    [new_entity [3] []]). *)
+    the failing state has a RELATION archetype without table and still satisfies [St2] (script [[0]],
+    then [new_entity [3] []]). This is harmless and unaffected by the repair of createArchetype: the
+    tables of a relation archetype are created per target combination, such an archetype may be
+    without table at any time (e.g. after its tables were freed); only archetypes WITHOUT relation
+    components are now always created with their table ([archs_tabled_norel]). *)
 Example r2a_err_after_arch :
   let s := Properties.Common.exec Rel2Check.r2_cfg [[0]]%Z in
   match new_entity [3] [] s with
